@@ -131,7 +131,7 @@ Proof.
   - intros H. inversion H; subst. destruct t2, s2, p2, f2; reflexivity.
 Qed.
 
-Lemma all_cells_length : length all_cells = (7 * 2 * 2 * 14)%nat.
+Lemma all_cells_length : length all_cells = (7 * 2 * 2 * 15)%nat.
 Proof. vm_compute. reflexivity. Qed.
 
 Lemma all_cells_complete : forall c : cell, In c all_cells.
@@ -180,7 +180,7 @@ Proof. vm_compute. reflexivity. Qed.
 (* panics of the service function, of invoke plugins and of the missing-method handler are stopped by
    Service.Process' own closure: they never unwind through the IO plugins or the transport handler *)
 Definition invoke_level (f : fault) : bool :=
-  match f with FServicePanic | FHostilePanic | FInvokePluginPanic | FMissingPanic => true | _ => false end.
+  match f with FServicePanic | FHostilePanic | FNestedHostilePanic | FInvokePluginPanic | FMissingPanic => true | _ => false end.
 
 Definition is_call_error (v : verdict) : bool := match v with CallError => true | _ => false end.
 
@@ -250,6 +250,16 @@ Qed.
 Lemma format_shielded_ok : format_shielded table = true.
 Proof. vm_compute. reflexivity. Qed.
 
+Lemma format_total_ok : format_total table = true.
+Proof. vm_compute. reflexivity. Qed.
+
+Lemma format_total_safe : forall t f, format_total t = true -> format_safe t f = true.
+Proof.
+  intros t f H. destruct f; try reflexivity; cbn [format_safe]; [|exact H].
+  unfold format_total in H. apply andb_true_iff in H. destruct H as [H1 H2].
+  unfold format_shielded. rewrite H1, H2. reflexivity.
+Qed.
+
 (* where the formatting runs, and what a panic there would do: the table shows no recover of
    Service.Handle (resp. Provider.process) around it *)
 Lemma format_phase_unprotected :
@@ -265,10 +275,10 @@ Qed.
 Lemma hostile_rests_on_shielding : forall t c g1 g2,
   behaviour_of c = Panics g1 -> format_phase c = Some g2 ->
   contained (panic_verdict t g1) = true ->
-  verdict_of t c = if format_shielded t then panic_verdict t g1 else panic_verdict t g2.
+  verdict_of t c = if format_safe t (c_fault c) then panic_verdict t g1 else panic_verdict t g2.
 Proof.
   intros t c g1 g2 H1 H2 Hc. unfold verdict_of. rewrite H1, H2, Hc.
-  destruct (format_shielded t); reflexivity.
+  destruct (format_safe t (c_fault c)); reflexivity.
 Qed.
 
 (* ---------------------------------------------------------------- teardown order, limits *)
